@@ -431,14 +431,37 @@ RE_LET = re.compile(r"^\s+let (?:mut )?_(\d+): (.*);$")
 RE_BB = re.compile(r"^\s+bb(\d+)( \(cleanup\))?: \{$")
 
 
+ALLOCS = {}   # path -> {alloc name -> (static name or None, bytes or None)}
+
+
 def parse_file(path, want=None):
     """-> dict name -> Fn.  `want(name)` filters which bodies are parsed (all headers are indexed)."""
     fns = {}
+    allocs = ALLOCS.setdefault(path, {})
+    cur_alloc = None
     cur = None
     bb = None
     with open(path, errors="replace") as f:
         for raw in f:
             line = raw.rstrip("\n")
+            if cur_alloc is not None:
+                if line == "}":
+                    cur_alloc = None
+                    continue
+                mm = re.match(r"\s+0x[0-9a-f]+ │ ([^│]*)│", line)
+                if mm and allocs[cur_alloc][1] is not None:
+                    toks = mm.group(1).split()
+                    if all(re.match(r"^[0-9a-f]{2}$", t) for t in toks):
+                        allocs[cur_alloc][1].extend(int(t, 16) for t in toks)
+                    else:
+                        allocs[cur_alloc][1] = None      # contains pointers / uninit: not decoded
+                continue
+            if cur is None and line.startswith("alloc"):
+                mm = re.match(r"^(alloc\d+) \((?:static: ([A-Za-z0-9_:]+), )?size: (\d+), align: (\d+)\) \{$", line)
+                if mm:
+                    cur_alloc = mm.group(1)
+                    allocs[cur_alloc] = [mm.group(2), []]
+                    continue
             if cur is None:
                 if line.startswith("fn "):
                     m = RE_FN.match(line) or RE_FN0.match(line)
